@@ -133,12 +133,50 @@ class Shard:
                 'known': self.known, 'notes': self.notes}
 
 
+_COVER = {'on': False, 'lines': set()}
+
+
+def _cover_start():
+    """Build-time aid (VERIF_COVER=<dir>): record which lines of <REPO>/supp a check executes, to find generator gaps.
+    Uses sys.monitoring (3.12), so it coexists with the sys.settrace scheduler of C16.  Never active in registered commands."""
+    out = os.environ.get('VERIF_COVER')
+    if not out or _COVER['on'] or not hasattr(sys, 'monitoring'):
+        return
+    mon = sys.monitoring
+    tool = 3
+    try:
+        mon.use_tool_id(tool, 'verif-cover')
+    except ValueError:
+        return
+    prefix = os.path.join(REPO, 'supp') + os.sep
+    lines = _COVER['lines']
+
+    def on_line(code, line):
+        if code.co_filename.startswith(prefix):
+            lines.add((code.co_filename[len(prefix):], line))
+        return mon.DISABLE
+    mon.register_callback(tool, mon.events.LINE, on_line)
+    mon.set_events(tool, mon.events.LINE)
+    _COVER['on'] = True
+
+
+def _cover_dump():
+    out = os.environ.get('VERIF_COVER')
+    if out and _COVER['on']:
+        os.makedirs(out, exist_ok=True)
+        with open(os.path.join(out, '%d.json' % os.getpid()), 'w') as f:
+            json.dump(sorted(_COVER['lines']), f)
+
+
 def _guard(fn_job):
     fn, job = fn_job
+    _cover_start()
     try:
         return fn(job)
     except BaseException:
         return {'harness_error': traceback.format_exc()}
+    finally:
+        _cover_dump()
 
 
 class Run:
